@@ -25,9 +25,11 @@
    run u reads and writes the record of u only): the per-run guarantees hold for each run on its own
    whatever the other runs do (C14).
 
-   [m_flag] is a ghost verdict: some run was stopped while one of its streams was "behind", i.e.
-   after a rewind point and before the replay had re-emitted everything that was rolled back; then
-   num_events is smaller than the number of events emitted (finding class C05-b).
+   Two ghost verdicts are accumulated: [m_bad]: some RunStop reported a num_events different from the
+   largest seq_num emitted in that stream (the C05 statement fails there); [m_flag]: some run was
+   stopped while one of its streams was "behind", i.e. after a rewind point and before the replay
+   had re-emitted everything that was rolled back (finding class C05-b).  An accepted trace has
+   m_bad -> m_flag (Proofs/RE_DocsCor.v): outside the class the counts are exact.
    No proofs in this file. *)
 From Coq Require Import List ZArith Bool Arith.
 From BV Require Import Engine.RE Engine.REInst.
@@ -38,9 +40,9 @@ Record sst := { s_top : nat; s_c : nat; s_ex : bool }.
 Definition sst0 : sst := {| s_top := 1; s_c := 1; s_ex := true |}.
 
 Record rrec := { r_uid : nat; r_intr : bool; r_descs : list nat; r_streams : list (nat * sst) }.
-Record mon := { m_open : list rrec; m_next : nat; m_st : rstate; m_expect : list doc; m_flag : bool }.
+Record mon := { m_open : list rrec; m_next : nat; m_st : rstate; m_expect : list doc; m_flag : bool; m_bad : bool }.
 
-Definition mon0 : mon := {| m_open := []; m_next := 0; m_st := Idle; m_expect := []; m_flag := false |}.
+Definition mon0 : mon := {| m_open := []; m_next := 0; m_st := Idle; m_expect := []; m_flag := false; m_bad := false |}.
 
 Definition sget (r : rrec) (name : nat) : sst :=
   match alookup name (r_streams r) with Some x => x | None => sst0 end.
@@ -77,6 +79,9 @@ Definition r_stop_ok (r : rrec) (num : list (nat * nat)) : bool :=
   && forallb (fun name => amem name num) (r_described r).
 Definition r_behind (r : rrec) (num : list (nat * nat)) : bool :=
   existsb (fun kv => s_behind (sget r (fst kv))) num.
+(* the property itself fails at this RunStop: num_events differs from the largest seq_num emitted *)
+Definition r_miscount (r : rrec) (num : list (nat * nat)) : bool :=
+  existsb (fun kv => negb (Nat.eqb (S (snd kv)) (s_top (sget r (fst kv))))) num.
 
 Fixpoint on_run (u : nat) (f : rrec -> option rrec) (l : list rrec) : option (list rrec) :=
   match l with
@@ -93,9 +98,9 @@ Fixpoint take_run (u : nat) (l : list rrec) : option (rrec * list rrec) :=
   end.
 
 Definition m_set_open (m : mon) (l : list rrec) : mon :=
-  {| m_open := l; m_next := m_next m; m_st := m_st m; m_expect := m_expect m; m_flag := m_flag m |}.
+  {| m_open := l; m_next := m_next m; m_st := m_st m; m_expect := m_expect m; m_flag := m_flag m; m_bad := m_bad m |}.
 Definition m_set_expect (m : mon) (q : list doc) : mon :=
-  {| m_open := m_open m; m_next := m_next m; m_st := m_st m; m_expect := q; m_flag := m_flag m |}.
+  {| m_open := m_open m; m_next := m_next m; m_st := m_st m; m_expect := q; m_flag := m_flag m; m_bad := m_bad m |}.
 
 Definition lift_open (m : mon) (o : option (list rrec)) : option mon :=
   match o with Some l => Some (m_set_open m l) | None => None end.
@@ -106,7 +111,7 @@ Definition doc_effect (rec : bool) (m : mon) (d : doc) : option mon :=
   | DStart u =>
       if Nat.eqb u (m_next m)
       then Some {| m_open := m_open m ++ [r_new u]; m_next := S u; m_st := m_st m;
-                   m_expect := if rec then [DDescr u INTR []] else []; m_flag := m_flag m |}
+                   m_expect := if rec then [DDescr u INTR []] else []; m_flag := m_flag m; m_bad := m_bad m |}
       else None
   | DDescr u name _ =>
       lift_open m (on_run u (fun r => if mem_nat name (r_descs r) then None else Some (r_add_desc r name)) (m_open m))
@@ -119,7 +124,7 @@ Definition doc_effect (rec : bool) (m : mon) (d : doc) : option mon :=
       | Some (r, rest) =>
           if r_stop_ok r num
           then Some {| m_open := rest; m_next := m_next m; m_st := m_st m; m_expect := m_expect m;
-                       m_flag := m_flag m || r_behind r num |}
+                       m_flag := m_flag m || r_behind r num; m_bad := m_bad m || r_miscount r num |}
           else None
       | None => None
       end
@@ -161,7 +166,7 @@ Definition mon_obs (rec : bool) (m : mon) (o : obs) : option mon :=
       | OState a b =>
           if rstate_eqb a (m_st m) && (negb (rstate_eqb b Idle) || match m_open m with [] => true | _ => false end)
           then Some {| m_open := m_open m; m_next := m_next m; m_st := b;
-                       m_expect := if rstate_eqb b Pausing then intr_expect m else []; m_flag := m_flag m |}
+                       m_expect := if rstate_eqb b Pausing then intr_expect m else []; m_flag := m_flag m; m_bad := m_bad m |}
           else None
       | OMsg mm => if is_susp_msg mm then Some (m_set_expect (weaken m) (intr_expect m)) else Some m
       | _ => Some m
@@ -220,6 +225,19 @@ Definition docs_ok (rec : bool) (l : list (event * list obs)) : bool :=
 (* C05-b: a run was stopped while behind a rewind *)
 Definition stopped_behind (rec : bool) (l : list (event * list obs)) : bool :=
   match mon_steps rec mon0 l with Some m => m_flag m | None => false end.
+(* the C05 statement failed at some RunStop *)
+Definition miscounted (rec : bool) (l : list (event * list obs)) : bool :=
+  match mon_steps rec mon0 l with Some m => m_bad m | None => false end.
 (* all runs closed at the end *)
 Definition all_closed (rec : bool) (l : list (event * list obs)) : bool :=
   match mon_steps rec mon0 l with Some m => match m_open m with [] => true | _ => false end | None => false end.
+
+(* per-case evaluation used by the checks: the model reproduces the logged observations, the
+   monitor accepts the model's trace, and the finding-class verdict agrees with the Python mirror *)
+Definition check_docs (tapes : list (nat * list tout)) (ledger : list devres)
+           (paus stag : list nat) (rec : bool) (evs : list event) (expected : list obs) (behind : bool) : bool :=
+  let l := model_steps tapes ledger paus stag rec evs in
+  match first_diff 0 (flat_map snd l) expected with
+  | None => match mon_steps rec mon0 l with Some m => Bool.eqb (m_flag m) behind | None => false end
+  | Some _ => false
+  end.
